@@ -89,7 +89,8 @@ fn c_dec_128() {
 macro_rules! block24 {
     ($enc:ident, $dec:ident, $mk:ident) => {
         #[kani::proof]
-        #[kani::stub(crate::utils::f, bcref::camellia::f)]
+        #[kani::stub(crate::utils::f, uf_f)]
+        #[kani::stub(bcref::camellia::f, uf_f)]
         #[kani::stub(crate::utils::fl, bcref::camellia::fl)]
         #[kani::stub(crate::utils::flinv, bcref::camellia::flinv)]
         #[kani::unwind(35)]
@@ -103,7 +104,8 @@ macro_rules! block24 {
             assert!(r == e);
         }
         #[kani::proof]
-        #[kani::stub(crate::utils::f, bcref::camellia::f)]
+        #[kani::stub(crate::utils::f, uf_f)]
+        #[kani::stub(bcref::camellia::f, uf_f)]
         #[kani::stub(crate::utils::fl, bcref::camellia::fl)]
         #[kani::stub(crate::utils::flinv, bcref::camellia::flinv)]
         #[kani::unwind(35)]
@@ -178,7 +180,8 @@ fn c_new_256() {
 macro_rules! api {
     ($enc:ident, $dec:ident, $ty:ident, $n:expr, $calls:expr, $refenc:path, $refdec:path) => {
         #[kani::proof]
-        #[kani::stub(crate::utils::f, bcref::camellia::f)]
+        #[kani::stub(crate::utils::f, uf_f)]
+        #[kani::stub(bcref::camellia::f, uf_f)]
         #[kani::stub(crate::utils::fl, bcref::camellia::fl)]
         #[kani::stub(crate::utils::flinv, bcref::camellia::flinv)]
         #[kani::unwind(35)]
@@ -193,7 +196,8 @@ macro_rules! api {
             assert!(eq_bytes16(&r, &e));
         }
         #[kani::proof]
-        #[kani::stub(crate::utils::f, bcref::camellia::f)]
+        #[kani::stub(crate::utils::f, uf_f)]
+        #[kani::stub(bcref::camellia::f, uf_f)]
         #[kani::stub(crate::utils::fl, bcref::camellia::fl)]
         #[kani::stub(crate::utils::flinv, bcref::camellia::flinv)]
         #[kani::unwind(35)]
